@@ -400,12 +400,13 @@ func variants(thorough bool) []sx.Variant {
 		// deviation budget around it depends on the size of the variant
 		big := p.HB || p.SR
 		bound := 1
-		switch {
-		case big && !thorough:
-			bound = 0
-		case !big && thorough:
+		if thorough {
 			bound = 2
+			if !big {
+				bound = 3
+			}
 		}
+		_ = big
 		out = append(out, sx.Variant{
 			Name:        p.name(),
 			Class:       "close",
